@@ -21,8 +21,8 @@ IMIN, IMAX = -4371222, 2932896
 
 META = {
     "property": "C12",
-    "proof_modules": ["PyodaProofs.C12", "PyodaProofs.C12Hebrew"],
-    "drivers": ["drv_compare"],
+    "proof_modules": ["PyodaProofs.C12", "PyodaProofs.C12Hebrew", "PyodaProofs.C12Days"],
+    "drivers": ["drv_compare", "drv_calendar"],
     "theorems": [
         "Pyoda.C12.packed_order_iff_fields", "Pyoda.C12.unpack_pack", "Pyoda.C12.pack_injective",
         "Pyoda.C12.packCal_injective", "Pyoda.C12.packed_negative_year_order",
@@ -39,6 +39,10 @@ META = {
         "Pyoda.C12.localDate_cross_calendar_raises", "Pyoda.C12.localDate_cross_calendar_eq_false",
         "Pyoda.C12.hebrewScriptural_cmp_iff_civil_lex", "Pyoda.C12.hebrewScriptural_tishri_boundary",
         "Pyoda.C12.scripturalToCivil_injective", "Pyoda.C12.hebrewScriptural_cmp_iff_days_partial",
+        "Pyoda.C12.hebrewScriptural_cmp_iff_days", "Pyoda.C12.hebrewScriptural_lt_iff_days",
+        "Pyoda.C12.calMatches_of_ordinal", "Pyoda.C12.calCompare_iff_days", "Pyoda.C12.days_inj",
+        "Pyoda.C12.localDate_cmp_iff_days", "Pyoda.C12.localDate_lt_iff_days", "Pyoda.C12.yearMonth_cmp_iff_days",
+        "Pyoda.C12.localDateTime_cmp_iff_days",
         "Pyoda.C12.localDateTime_eq_iff_components", "Pyoda.C12.localDateTime_eq_equivalence", "Pyoda.C12.localDateTime_hash_congr",
         "Pyoda.C12.localDateTime_cmp_total_order", "Pyoda.C12.localDateTime_ops_agree_with_cmp",
         "Pyoda.C12.localDateTime_cmp_iff_timeline", "Pyoda.C12.localDateTime_cross_calendar_raises",
@@ -61,12 +65,13 @@ META = {
     "trusted_base": [
         "CPython: hash(int) is reduction modulo 2^61-1 with -1 mapped to -2; a __hash__ result outside the Py_ssize_t range is reduced the same way; x << k | y equals x*2^k + y for 0 <= y < 2^k; built-in min/max return the first argument unless the second is strictly smaller/greater",
         "hash(str) and hash(CalendarSystem) (object identity) are inputs of the modelled hash functions, not modelled",
+        "the hypothesis wfCheck (Heb.cal true) = true of hebrewScriptural_cmp_iff_days / _lt_iff_days is discharged by EVALUATING the executable checker on the compiled calendar driver (op `cal.wf 5`, all 9999 years, in every run of this check and of C01; Lean compiler trusted for that step); WF c of the generic *_cmp_iff_days theorems is the hypothesis of property C01, established there for all 19 calendars",
         "the timeline position of a LocalDate in the direct oracle is the value of LocalDate._days_since_epoch of the real code (its correctness is property C01)",
     ],
     "partial": [
         "attribute mutation is a runtime behaviour the model cannot exhibit; covered by harness checks (snapshot differential over generated call sequences, static AST pass, read-only property rebinding)",
-        "hebrewScriptural_cmp_iff_days_partial (PyodaProofs/C12Hebrew.lean, on the Hebrew calculator of PyodaModel.Calendar.Systems): the scriptural comparison is the lexicographic comparison of (year, day of year), i.e. day-number order inside a year and year order across years; the full statement hebrewScriptural_cmp_iff_daysStatement (absolute day numbers) additionally needs that consecutive year starts differ by at least the year length, which is the Hebrew year-table theorem of C01 (bulk kernel evaluation), not repeated here",
-        "localDate/yearMonth cmp_iff_timeline are stated against lexicographic (year, month, day) fields (scriptural: civil month); the step from fields to day numbers is C01",
+        "hebrewScriptural_cmp_iff_days (PyodaProofs/C12Days.lean) proves the full statement hebrewScriptural_cmp_iff_daysStatement (sign of the scriptural comparison = sign of the comparison of absolute day numbers) under the hypothesis wfCheck (Heb.cal true) = true; hebrewScriptural_cmp_iff_days_partial is the unconditional (year, day-of-year) form",
+        "localDate/yearMonth/localDateTime _cmp_iff_days (C12Days.lean) lift cmp_iff_timeline from packed (year, month, day) keys to day numbers for any calendar description c with WF c (hypothesis of property C01, proved symbolically or discharged by cal.wf in C01's run) and CalMatches ord c (proved for all 19 ordinals: calMatches_of_ordinal)",
         "OffsetDateTime.comparer.local/instant, Period.normalizing_equality_comparer and Period.create_comparer do not exist in the pinned tree (TODO markers in the source); nothing to model. ZonedDateTime defines __eq__ without __hash__ and is therefore unhashable: hashing is not supported for it, so hash_congr has no instance",
         "Period.__hash__ is the built-in tuple hash of its ten components; modelled as an uninterpreted function of the component tuple (hash_congr is congruence), values are compared by the direct oracle only",
     ],
@@ -1154,11 +1159,24 @@ def run(ctx):
     n = ctx.scale(50_000, 1_500_000)
     ops = gen_ops(ctx, n)
     ctx.correspond("compare.triples", ops, impl, oracle=oracle, neighbours=neighbours)
+    ctx.check_cases("wfCheck (Heb.cal true) evaluated on drv_calendar (hypothesis of hebrewScriptural_cmp_iff_days)",
+                    ["cal.wf 5"], _wf_case)
     tag = f"{getattr(ctx, 'seed', 0)}:{ctx.tier}"
     ctx.check_cases("immutability (support, harness only)", [f"static:{tag}", f"rebind:{tag}", f"dynamic:{tag}"], _imm_case(ctx))
 
 
+def _wf_case(op):
+    import common
+    r = common.model_eval([op], "drv_calendar")[0]
+    if r != "1":
+        return {"key": "hebrew-scriptural-wf-check-fails",
+                "what": f"{op} -> {r}: the Hebrew scriptural calendar description fails the evaluated well-formedness check, the hypothesis of hebrewScriptural_cmp_iff_days is not discharged"}
+    return None
+
+
 def replay_op(op, failure):
+    if op.startswith("cal.wf"):
+        return _wf_case(op)
     if op.split(":")[0] in _IMM:
         tier = op.split(":")[2] if op.count(":") >= 2 else "quick"
 
